@@ -428,6 +428,54 @@ func runC03(c *Ctx) {
 			if union != labCur|labPrev {
 				continue // not a current/previous pair
 			}
+			if !ok {
+				// every parameter sees both sides: either a pair helper with a swapped call site, or a helper that is
+				// called once per side with several same-typed arguments (a constructor: newFieldDefault(comparable,
+				// printable)). The call sites tell them apart: at a pair's call site the arguments carry different
+				// labels, at a per-side helper's call site they all carry the same one.
+				perSide := true
+				sites := 0
+				idx := map[types.Object]int{}
+				pi := 0
+				for _, fld := range fr.Decl.Type.Params.List {
+					for _, nm := range fld.Names {
+						idx[fr.Info().Defs[nm]] = pi
+						pi++
+					}
+				}
+				for _, caller := range l.decls {
+					if caller.Decl.Body == nil {
+						continue
+					}
+					ast.Inspect(caller.Decl.Body, func(n ast.Node) bool {
+						call, isCall := n.(*ast.CallExpr)
+						if !isCall || Callee(caller.Info(), call) != fr.Obj {
+							return true
+						}
+						sites++
+						var first uint8
+						for _, nm := range g {
+							i := idx[fr.Info().Defs[nm]]
+							if i >= len(call.Args) {
+								continue
+							}
+							lv := l.L(caller.Info(), call.Args[i])
+							if lv == 0 {
+								continue
+							}
+							if first == 0 {
+								first = lv
+							} else if lv != first {
+								perSide = false // the arguments of one call come from different sides: a pair
+							}
+						}
+						return true
+					})
+				}
+				if perSide && sites > 0 {
+					continue
+				}
+			}
 			c.Ob("LABEL-CONSISTENT", fr.ID()+"/"+strings.Join(func() []string {
 				var ns []string
 				for _, nm := range g {
